@@ -9,13 +9,18 @@ ICN = "indexed_coproduct::arrow::IndexedCoproduct"
 
 PROPS = {
     "C01": {
-        "clause": "composition fails (None) instead of panicking on a type mismatch; the construction is the typed "
+        "clause": "strict and lax composition: composition fails (None) instead of panicking on a type mismatch; the lax "
+                  "composite is the juxtaposition with the i-th target of f unified with the i-th source of g; the strict construction is the typed "
                   "pushout cospan: both coequalised legs land in one node space whose labels agree on the glued "
                   "pairs (rule FIBRE), the result is well-formed and typed source(f) -> target(g)",
         "entries": [f"<{S_OH}<K, O, A> as category::traits::Arrow>::compose",
                     f"<&{S_OH}<K, O, A> as std::ops::Shr<",
                     f"{S_H}::<K, O, A>::coequalize_vertices",
-                    f"{FFN}::<K>::coequalizer", "finite_function::arrow::coequalizer_universal"],
+                    f"{FFN}::<K>::coequalizer", "finite_function::arrow::coequalizer_universal",
+                    "Arrow for lax::open_hypergraph::OpenHypergraph<O, A>>::compose",
+                    "lax::category::<impl lax::open_hypergraph::OpenHypergraph<O, A>>::lax_compose",
+                    "Shr<&lax::open_hypergraph::OpenHypergraph<O, A>> for &lax::open_hypergraph::OpenHypergraph<O, A>>::shr",
+                    "lax::hypergraph::Hypergraph::<O, A>::unify", "lax::open_hypergraph::OpenHypergraph::<O, A>::unify"],
         "anchors": [f"<{S_OH}<K, O, A> as category::traits::Arrow>::compose", f"{S_H}::<K, O, A>::coequalize_vertices",
                     f"{FFN}::<K>::coequalizer", "finite_function::arrow::coequalizer_universal"],
         "rules": [], "level": "proof",
